@@ -4,6 +4,7 @@ import (
 	"bytes"
 	"fmt"
 	"io"
+	"os"
 	"net"
 	"sync"
 	"sync/atomic"
@@ -73,7 +74,7 @@ type Peer struct {
 	Handshakes                                                                            int32
 	sentTotal                                                                             int32
 	didDisconnect                                                                         int32
-	Lied                                                                                  int32 // served at least one false message
+	Lied                                                                                  int32           // served at least one false message
 	barrier                                                                               <-chan struct{} // when set: the first headers reply waits for it
 }
 
@@ -113,7 +114,7 @@ func (p *Peer) services() wire.ServiceFlag {
 
 func (p *Peer) startHeight() int32 {
 	switch p.B.Kind {
-	case "silent":
+	case "silent", "emptyHeaders":
 		return 1 << 20
 	case "liarHeaders":
 		return p.w.Honest().Height + 5
@@ -253,7 +254,7 @@ func (s *session) writer(pver uint32, net wire.BitcoinNet) {
 
 // Announce tells the client about this peer's current tip (if connected).
 func (p *Peer) Announce() {
-	if p.B.Kind == "silent" {
+	if p.B.Kind == "silent" || p.B.Kind == "emptyHeaders" {
 		return
 	}
 	p.mu.Lock()
@@ -358,6 +359,12 @@ func (s *session) handle(m wire.Message) {
 			case <-time.After(5 * time.Second):
 			}
 		}
+		if p.B.Kind == "emptyHeaders" {
+			// claims a huge height but never has a header to give
+			atomic.StoreInt32(&p.Lied, 1)
+			s.send(wire.NewMsgHeaders())
+			return
+		}
 		tip := p.tip()
 		start := int32(1)
 		for _, h := range msg.BlockLocatorHashes {
@@ -433,6 +440,12 @@ func (s *session) handle(m wire.Message) {
 		stop := p.onMyChain(msg.StopHash, tip)
 		if stop == nil || !stop.Valid || int32(msg.StartHeight) > stop.Height ||
 			stop.Height-int32(msg.StartHeight)+1 > wire.MaxGetCFiltersReqRange {
+			if os.Getenv("NETSIM_DEBUG") != "" {
+				fmt.Fprintf(os.Stderr, "peer %d declines getcfilters start %d stop %v (known %v)\n", p.Idx, msg.StartHeight, msg.StopHash, stop != nil)
+				if stop != nil {
+					fmt.Fprintf(os.Stderr, "   stop height %d\n", stop.Height)
+				}
+			}
 			return
 		}
 		path := stop.Path()
